@@ -319,6 +319,7 @@ static void do_encode_case(vp_ctx_t* c, uint64_t idx)
     size_t total = HDR + v.P + v.D;
     msg_select(&m, total);
     const char* dtn = v.dt->name;
+    vp_rng_fill(&c->rng, m.p, HDR); memcpy(m.s, m.p, HDR);    /* prior header independent of the placement */
     /* header fields through the library's writers, judged by the bit-field model */
     bf_set(m.s, POS_MODE, 2, v.mode); bf_set(m.s, POS_DT, 8, v.dtcode);
     vp_curop("vss-encode-header", dtn, "", idx);
@@ -456,7 +457,7 @@ static void decode_from(vp_ctx_t* c, const vcase_t* v, uint8_t* pdu, const char*
             uint64_t got = el_load(dst, i, v->dt->esize);
             if (got != (v->elems[i] & emask(v->dt->esize))) { viol_decode(c, "get-data", v, "copy", "element-mismatch", v->elems[i], got, i); break; }
         }
-        vp_tr_bytes(c, dst, nbytes > 64 ? 64 : nbytes);
+        for (uint32_t i = 0; i < v->nelem && i < 12; i++) vp_tr_u64(c, el_load(dst, i, v->dt->esize));   /* logical values: host images differ by byte order */
     } else {
         if (memcmp(dst, v->bytes, nbytes) != 0) viol_decode(c, "get-data", v, "copy", "bytes-differ", 0, 0, 0);
         vp_tr_bytes(c, dst, nbytes > 64 ? 64 : nbytes);
@@ -742,7 +743,7 @@ int main(void)
     uint64_t first = vp_cfg_u64("FIRST", 0);
     g_place = (uint32_t)vp_cfg_u64("PLACE", 0);
     g_canary = (int)vp_cfg_u64("CANARY", 0);
-    vp_ctx_init(c, seed, 0x5500 + (uint64_t)mode[0] + first * 977 + g_place);
+    vp_ctx_init(c, seed, 0x5500 + (uint64_t)mode[0] + first * 977);
     c->tdump = (int)vp_cfg_u64("DUMP", 0);
     vp_arena_new(&A_big, BIG_SZ); vp_arena_new(&A_small, SMALL_SZ); vp_arena_new(&O, OBJ_SZ);
     vp_arena_fill(&A_big, &c->rng); vp_arena_fill(&A_small, &c->rng); vp_arena_fill(&O, &c->rng);
